@@ -684,6 +684,11 @@ impl Property for C14 {
                         s.cpu.pc = if conv == 0 { halt_at + 1 } else { halt_at };
                         let bytes = write_szx(&s, &szx_opt(&mut orng, false));
                         let mut e = mk(m128, rdirt, &mut fresh, false, false);
+                        if rdirt != 0 {
+                            // what the receiver's old program left around the address the file's PC names is none of
+                            // the file's business (a HALT opcode right in front of it, say)
+                            write_mem(&mut e, halt_at - 1, &[0x76, 0x00, 0x00]);
+                        }
                         match load(&mut e, 1, &bytes, chunk) {
                             Err(pi) => return Err(Fail::new("C14.panic", &format!("format=szx,at={}", crate::runner::panic_site(&pi)), format!("loading an SZX file with HALTED set panicked: {}", pi.msg))),
                             Ok(Err(x)) => return Err(Fail::new("C14.rejected", "format=szx,flag=halted", format!("a well-formed SZX file with HALTED set was rejected: {}", x))),
